@@ -11,7 +11,7 @@ algorithms they claim to be:
           to zero, over the whole presUDot / zeroUDot lists (the structural half of 'the same accelerations in both directions')."""
 from ..facts import extract, units_matching, Program, sx_find, sx_str
 from ..match import ev_write, var_of, field_of
-from ..columns import node_sweeps, _loop_var, _steps, _lit
+from ..columns import body_outputs, index_space, NODE_UNITS, NODE_HDR, node_sweeps, _loop_var, _steps, _lit
 
 UNITS = r"/Simbody/src/SimbodyMatterSubsystemRep\.cpp$"
 SWEEPS = {"calcTreeAccelerations": ["calcUDotPass1Inward", "calcUDotPass2Outward"],
@@ -85,13 +85,29 @@ def run(chk, tier, overlays=()):
     chk.rule("SCATTER", "calcTreeAccelerations writes every prescribed udot (udot[presUDot[i]] = presUDots[i]) and every known-zero udot (udot[zeroUDot[i]] = 0) over the whole lists "
              "before the inward pass")
     scatter(chk, P)
+    chk.rule("INDEXSPACE", "sibling agreement between the generic node template and the hand-written node classes (lone particle, weld): a pointer parameter that RigidBodyNodeSpec<dof> "
+             "reads with fromU/toU is a u-space array and must be subscripted with uIndex in every other implementation of the same virtual, one read with fromQ/toQ with qIndex")
+    nunits = units_matching(NODE_UNITS)
+    PN = Program(extract(nunits, hdr=NODE_HDR, overlays=overlays))
+    chk.units += nunits
+    chk.nfunctions += len(PN.fns)
+    index_space(chk, PN, methods={"calcUDotPass1Inward", "calcUDotPass2Outward", "calcBodyAccelerationsFromUdotOutward", "calcInverseDynamicsPass2Inward", "calcEquivalentJointForces"})
+    chk.rule("OUTWRITE", "sibling agreement on outputs: a per-body output array that belongs to the operator's caller and whose own entry [nodeNum] the generic node template assigns in a pass "
+             "is assigned on every path by every other implementation of that pass too (Ground: entry 0) -- the sweeps never pre-zero these arrays")
+    PRr = Program(extract(units_matching(r"/Simbody/src/SimbodyMatterSubsystemRep\.cpp$"), hdr="^$", overlays=overlays))
+    body_outputs(chk, PN, methods={"calcUDotPass1Inward", "calcUDotPass2Outward", "calcBodyAccelerationsFromUdotOutward", "calcInverseDynamicsPass2Inward", "calcEquivalentJointForces"}, PR=PRr)
     chk.floor("SWEEP", 22)
     chk.floor("SCATTER", 6)
+    chk.floor("OUTWRITE", 3)
+    chk.floor("INDEXSPACE", 8)
     chk.assumptions += ["the per-node recursions and therefore M*udot + f_inertial = f_applied, the residuals and the Coriolis / gyroscopic terms are numerical and not decided"]
 
 
 _R = "Simbody/src/SimbodyMatterSubsystemRep.cpp"
 MUTATIONS = [
+    dict(name="seeded (sub-agent): Ground's outward pass leaves its acceleration entry alone", arm=True, file="Simbody/src/RigidBodyNode_Weld.cpp",
+         old="        Real*                      allTau) const override\n    {\n        allA_GB[0] = 0;\n    }", new="        Real*                      allTau) const override\n    {\n    }",
+         expect="OUTWRITE:RBGroundBody::calcUDotPass2Outward:allA_GB"),
     dict(name="forward dynamics inward pass swept base to tip", arm=True, file=_R,
          old="    for (int i=rbNodeLevels.size()-1 ; i>=0 ; i--) \n        for (int j=0 ; j<(int)rbNodeLevels[i].size() ; j++) {\n            const RigidBodyNode& node = *rbNodeLevels[i][j];\n            node.calcUDotPass1Inward(",
          new="    for (int i=0 ; i<(int)rbNodeLevels.size() ; i++) \n        for (int j=0 ; j<(int)rbNodeLevels[i].size() ; j++) {\n            const RigidBodyNode& node = *rbNodeLevels[i][j];\n            node.calcUDotPass1Inward(",
